@@ -7,6 +7,9 @@ input variable is read back and compared with
      (pastified too if the specification was) on the same data — the property oracle, real code;
    * the memo of the Lean mirror `runProgram` (online) — correspondence;
    * the supplied data for input variables.
+Stream `twin-units`: two names whose bounds differ only in the unit.  Stream `raise-resume`: online runs (discrete and dense time)
+in which update() raises for some samples after other names were evaluated, the caller catches the exception and goes on; every
+name and input variable read back after each update() that returned.
 """
 from .. import common, formula as F, impl, disc, modular as M
 from ..common import same_vals
@@ -14,7 +17,9 @@ from ..engine import Violation, Ctx
 
 RULE = ("modular specs as in C09 (1-5 named assertions, shared stateful sub-specifications, constants); monitors offd/ond/past; "
         "traces 1..10; every name and every input variable read back after evaluate() / after each update(). distinct by "
-        "(spec, data, monitor); non-trivial when some named value is not constant +-inf.")
+        "(spec, data, monitor); non-trivial when some named value is not constant +-inf. raise-resume: 1-3 names (half of them without "
+        "temporal operators, some referring to an earlier one) around an assertion that raises on 1-3 of 3-9 samples (sqrt / ln outside "
+        "the domain, division by zero), ond / onc (one or two samples per update).")
 EXPLANATION = ("theorems: C09_program_refines_trees / C09_program_eq_rho: the memo (`ast.results`) of the dictionary-and-memo "
                "interpreter holds, for every assertion and operator sub-formula, the value of its stand-alone monitor (= rho); "
                "offline the results table is filled by the same visitor as C01 (one entry per node). Correspondence: get_value of "
@@ -230,14 +235,18 @@ def twin_units_stream(ctx, rng, count, prop="C12"):
 # catches the exception and keeps feeding samples.  After every update() that SUCCEEDED every name and every input variable is read
 # back.
 #   * input variable: the sample just given;
-#   * the raising assertion (no temporal operator below or beside the raising term: nothing of it has seen the failed sample): the
-#     stand-alone specification fed with the samples of the successful updates;
-#   * a name without temporal operators: the value of its formula for the sample just given (= its stand-alone specification,
-#     whatever samples that one has seen before);
-#   * a name with temporal operators: what "the same data" is after a failed update() is not said by the property - the samples of
-#     the successful updates only, or those of the failed ones too (the name may have been evaluated before the exception).  The
-#     stream accepts either reading (one reading per name for the whole run) and nothing else.  Temporal sub-formulas are not
-#     shared between names on different sides of the raising assertion (one operator per printed name: it would follow both).
+#   * the raising assertion, when the raising operator is the first one that is evaluated (discrete time: when no temporal operator
+#     is evaluated before it): nothing of it has seen the failed sample; the stand-alone specification fed with the samples of the
+#     successful updates;
+#   * discrete time, a name without temporal operators: the value of its formula for the sample just given (= its stand-alone
+#     specification, whatever samples that one has seen before);
+#   * any other name: what "the same data" is after a failed update() is not said by the property - the samples of the successful
+#     updates only, or those of the failed ones too (the name may have been evaluated before the exception).  The stream accepts
+#     either reading (one reading per name for the whole run) and nothing else.  (Dense time: every operator drops a sample that
+#     repeats its previous output and may hold back its last one, so the LIST that a name returns depends on the previous update
+#     even without temporal operators.)  Operators with memory (discrete time: temporal sub-formulas; dense time: every operator)
+#     are not shared between the names evaluated before the exception and those after it (one operator per printed name: it would
+#     follow both readings).
 RR_B_OK = [3.0, 4.0, 5.0, 9.0]
 RR_VALUES = [-1.0, 0.0, 0.5, 1.0, 2.0, 3.0, 5.0]
 
@@ -267,6 +276,26 @@ def _rr_raiser(rng, g, mon):
     return f, bad
 
 
+def _rr_memory_ops(f, mon):
+    """Texts of the sub-formulas whose operator keeps something from one update to the next."""
+    return {F.to_text(x) for x in F.subformulas(f) if (M.stateful(x) if mon == "ond" else x[0] not in ("v", "c"))}
+
+
+def _rr_first_op(f):
+    """The operator that is evaluated first (operands before the operator, left to right)."""
+    for c in F.children(f):
+        if c[0] not in ("v", "c"):
+            return _rr_first_op(c)
+    return f
+
+
+def _rr_raiser_untouched(raiser, mon):
+    """Nothing with memory is evaluated in the raising assertion before the exception."""
+    if mon == "ond":
+        return True         # (as generated: comparisons and arithmetic before it, temporal operators only above it)
+    return _rr_first_op(raiser)[:2] in (("u", "sqrt"), ("u", "ln")) and _rr_first_op(raiser)[2] == ("v", "b")
+
+
 def rr_gen_case(rng):
     mon = rng.choice(["ond", "ond", "onc"])
     vs = rng.choice([["a"], ["a", "c"], ["a", "c", "b"], ["a", "b"]])
@@ -275,32 +304,32 @@ def rr_gen_case(rng):
     else:
         from .. import dense
         g = dense.DGen(rng, vs, dense.DENSE_ON - {"fn", "iffxor"}, max_bound=rng.choice([1, 2, 3]))
-    for _ in range(20):
+    raiser, bad = _rr_raiser(rng, g, mon)
+    for _ in range(30):
         k = rng.choice([1, 2, 2, 3])
         pos = rng.choice([j for j in range(k + 1) for _w in range(1 + 3 * (j > 0))])      # mostly after at least one name
         bodies = []
         for j in range(k):
-            # every second name or so has no temporal operator: its value is that of the sample just given under every reading
-            d = rng.choice([0, 1, 1, 2, 3])
-            f = g.formula(d)
+            # every second name or so has no temporal operator
+            f = g.formula(rng.choice([0, 1, 1, 2, 3]))
             if rng.random() < 0.4:
                 for _t in range(20):
                     if not _rr_stateful(f):
                         break
                     f = g.formula(rng.choice([0, 1, 2]))
             bodies.append(f)
-        before = {F.to_text(x) for f in bodies[:pos] for x in F.subformulas(f) if M.stateful(x)}
-        after = {F.to_text(x) for f in bodies[pos:] for x in F.subformulas(f) if M.stateful(x)}
+        before = set().union(_rr_memory_ops(raiser, mon), *[_rr_memory_ops(f, mon) for f in bodies[:pos]])
+        after = set().union(*[_rr_memory_ops(f, mon) for f in bodies[pos:]])
         if not (before & after):
             break
     else:
         return None
-    raiser, bad = _rr_raiser(rng, g, mon)
     defs = [("p%d" % j, f) for j, f in enumerate(bodies)]
-    # a later name refers to an earlier one that has no temporal operator
+    # a later name refers to an earlier one without temporal operators (dense time: on the same side of the raising assertion)
     for j in range(1, k):
         if rng.random() < 0.25:
-            free = [nm for nm, f in defs[:j] if not _rr_stateful(f) and not any(x[0] == "v" and x[1].startswith("p") for x in F.subformulas(f))]
+            free = [nm for i, (nm, f) in enumerate(defs[:j]) if not _rr_stateful(f) and not any(x[0] == "v" and x[1].startswith("p") for x in F.subformulas(f))
+                    and (mon == "ond" or (i < pos) == (j < pos))]
             if free:
                 ref = ("v", rng.choice(free))
                 defs[j] = (defs[j][0], ("b", rng.choice(["and", "or"]), defs[j][1], rng.choice([ref, ("u", "not", ref)])))
@@ -388,7 +417,8 @@ def rr_check(ctx, case):
     inl, lines = _rr_texts(case)
     names = [nm for nm, _ in case["defs"]]
     rep = rr_rep(case)
-    full = _rr_run(case, "\n".join(lines), [nm for nm in names if nm != "out"], range(n), read=names + ["a", "b", "c"])
+    full = _rr_run(case, "\n".join(lines), [nm for nm in names if nm != "out"], range(n),
+                   read=names + sorted({x for nm in names for x in F.variables(inl[nm])}))
     rep["impl"] = full
     if full[0] != "ok":
         return Violation("%s monitor, failing samples caught: parse/update/get_value raised %r: %s" % (mon, full[1:], rep["spec"].replace("\n", " ")),
@@ -415,9 +445,13 @@ def rr_check(ctx, case):
         text = "%s = %s" % (nm, F.to_text(inl[nm]))
         decl = [nm] if nm != "out" else []
         readings = [("the samples of the successful updates", ok)]
-        if nm != "out" and _rr_stateful(inl[nm]):
+        if nm == "out":
+            if not _rr_raiser_untouched(inl[nm], mon):
+                ctx.count("raise-resume:raising-assertion-partly-evaluated-not-compared")
+                continue
+        elif mon == "onc" or _rr_stateful(inl[nm]):
             readings.append(("all samples", range(n)))
-        ctx.count("raise-resume:%s" % ("raising-assertion" if nm == "out" else "temporal-name" if len(readings) > 1 else "memoryless-name"))
+        ctx.count("raise-resume:%s" % ("raising-assertion" if nm == "out" else "temporal-name" if _rr_stateful(inl[nm]) else "memoryless-name"))
         wants = []
         for what, steps in readings:
             alone = _rr_run(case, text, decl, steps)
@@ -503,7 +537,7 @@ def run(ctx):
     if not ctx.violations:
         twin_units_stream(ctx, ctx.subrng("twin-units"), ctx.budget(40, 300))
     if not ctx.violations:
-        raise_resume_stream(ctx, ctx.subrng("raise-resume"), ctx.budget(120, 800))
+        raise_resume_stream(ctx, ctx.subrng("raise-resume"), ctx.budget(250, 1500))
     if not ctx.violations:
         try:
             from .. import dense
